@@ -17,7 +17,7 @@ RULE = ('case = block of load/unload histories (exhaustive enumeration by index)
         'checked; non-trivial history = at least one unload followed by a load, or two loaded keys sharing an alias; distinct = distinct histories '
         '(digest of the operation sequence); the evidence also reports distinct abstract index states (multiset of loaded objects) visited')
 ASSUMPTIONS = ['identifiers are computed from public attributes of the key objects (fingerprint, userids)']
-MIN_COUNTERS = {'quick': {'histories': 90000, 'steps_checked': 150000, 'selections_checked': 2000000, 'walk_steps': 300, 'multi_key_loads': 20},
+MIN_COUNTERS = {'quick': {'histories': 90000, 'steps_checked': 150000, 'selections_checked': 2000000, 'walk_steps': 300, 'multi_key_loads': 20, 'multi_issuer_selections': 300},
                 'thorough': {'histories': 1000000}}
 BUDGET = {'quick': (600, 1500), 'thorough': (2400, 3600)}
 TECHNIQUE = 'runtime monitoring: bounded-exhaustive history enumeration + random walks against a shadow model; invariants checked after every step'
@@ -43,10 +43,11 @@ def universe():
         with warnings.catch_warnings():
             warnings.simplefilter('ignore')
             for i, n in enumerate(NAMES):
-                k = pool.pgpy_bare(n)
+                # three of the identifiers in the universe begin with a zero octet (key id of key 0, fingerprint of key 1, short id of key 2's subkey)
+                k = pool.pgpy_bare(n, created=pool.created_with_zero(n, ['keyid', 'fpr'][i]) if i < 2 else None)
                 for name, comment, email in UIDS[i]:
                     k.add_uid(pgpy.PGPUID.new(name, comment=comment, email=email), usage={KeyFlags.Sign, KeyFlags.Certify})
-                k.add_subkey(pool.pgpy_bare(SUBS[i]), usage={KeyFlags.EncryptCommunications})
+                k.add_subkey(pool.pgpy_bare(SUBS[i], created=pool.created_with_zero(SUBS[i], 'shortid') if i == 2 else None), usage={KeyFlags.EncryptCommunications})
                 pub = pgpy.PGPKey.from_blob(bytes(k.pubkey))[0]
                 objs += [k, pub]
         _U = objs
@@ -381,6 +382,40 @@ def _select(ctx, d, pgpy, U, sc):
                     ctx.fail('selection-by-%s-returns-unrelated-key' % what, {'loaded': list(combo), 'key': i, 'got': str(got.fingerprint)})
                 elif not (ids & want):
                     ctx.fail('selection-by-%s-returns-unrelated-key' % what, {'loaded': list(combo), 'key': i, 'got': str(got.fingerprint)})
+        # messages that name several issuers (two recipients / two signers): a loaded one among them must be found whatever the others are
+        for i, j in ((0, 2), (2, 4), (4, 6), (6, 0), (0, 4), (2, 6)):
+            sk = bytes(range(32))
+            from pgpy.constants import SymmetricKeyAlgorithm
+            m0 = pgpy.PGPMessage.new('to two', compression=CompressionAlgorithm.Uncompressed)
+            enc2 = U[j + 1].encrypt(U[i + 1].encrypt(m0, sessionkey=sk, cipher=SymmetricKeyAlgorithm.AES256), sessionkey=sk, cipher=SymmetricKeyAlgorithm.AES256)
+            s2 = pgpy.PGPMessage.new('signed by two', compression=CompressionAlgorithm.Uncompressed)
+            s2 |= U[i].sign(s2)
+            s2 |= U[j].sign(s2)
+            have = any(x is U[i] or x is U[i + 1] or x is U[j] or x is U[j + 1] for x in loaded)
+            for what, ident, want in (('encrypted-message', enc2, set(enc2.encrypters)), ('signed-message', s2, {s_.signer for s_ in s2.signatures})):
+                ctx.count('selections_checked')
+                ctx.count('multi_issuer_selections')
+                ctx.count('evaluations')
+                where = {'loaded': list(combo), 'issuers': [i, j], 'several_issuers': True}
+                try:
+                    with kr.key(ident) as got:
+                        pass
+                except KeyError:
+                    if have:
+                        ctx.fail('selection-by-%s-finds-nothing' % what, where)
+                    continue
+                except Exception as e:
+                    if have:
+                        ctx.fail('selection-by-%s-raised' % what, dict(where, err=repr(e)[:200]))
+                    continue
+                if not have:
+                    ctx.fail('selection-by-%s-of-unloaded-key-returns-a-key' % what, dict(where, got=str(got.fingerprint)))
+                    continue
+                ids = {str(got.fingerprint)[-16:]} | set(got.subkeys)
+                if got.parent is not None:
+                    ids |= {str(got.parent.fingerprint)[-16:]}
+                if not (ids & want):
+                    ctx.fail('selection-by-%s-returns-unrelated-key' % what, dict(where, got=str(got.fingerprint)))
     ctx.nontrivial(d)
 
 
